@@ -644,15 +644,9 @@ def run(rep: Report, tier: str):
     rep.rule("C13.registry-complete", "the analysis registry is complete after importing the package", 2)
     rep.rule("C13.no-process-state", "no read-only query changes a process-wide setting (recursion limit, environment, cwd, filters)", 1)
     # rules that do not need the opcode summaries first (they stand even if a handler defeats the abstract interpreter)
-    check_cache_atomic(repo, rep)
-    check_hash_order(repo, rep)
-    check_shared_default(repo, rep)
-    check_class_level_state(repo, rep)
-    check_module_level_state(repo, rep)
-    check_registry(repo, rep)
-    check_process_state(repo, rep)
-    check_one_shot(repo, rep)
-    check_read_only(repo, rep)
+    for rule_fn in (check_cache_atomic, check_hash_order, check_shared_default, check_class_level_state, check_module_level_state, check_registry, check_process_state, check_one_shot, check_read_only):
+        with rep.part(rule_fn.__name__):  # one rule the analyser cannot decide does not silence the others
+            rule_fn(repo, rep)
 
     # value level, interpreted last: the same pickle analysed in a fresh process and after something else happened in the process
     from ..editworlds import explore_history
